@@ -22,7 +22,7 @@ Params == IF "C09_PARAMS" \in DOMAIN IOEnv THEN ndJsonDeserialize(IOEnv.C09_PARA
           ELSE [seed |-> 1, nsort |-> 6, sortlen |-> 12]
 
 B2S(pp) == IF pp THEN "True" ELSE "False"
-LtS(cc) == IF cc = 2 THEN "type" ELSE B2S(cc < 0)
+LtS(cc) == IF cc = 2 THEN "type" ELSE IF cc = 3 THEN "any" ELSE B2S(cc < 0)
 
 PairRow(ia, ib) ==
     LET eq  == EqM[ia][ib]
@@ -34,9 +34,9 @@ PairRow(ia, ib) ==
          IF eq THEN "0" ELSE "notfound",
          Zone(U[ia].v, U[ib].v),
          B2S(~eq),                                                          \* a != b
-         IF CmpM[ia][ib] = 2 THEN "type" ELSE B2S(CmpM[ia][ib] <= 0),       \* a <= b
-         IF CmpM[ia][ib] = 2 THEN "type" ELSE B2S(CmpM[ia][ib] = 1),        \* a > b
-         IF CmpM[ia][ib] = 2 THEN "type" ELSE ToString(CmpM[ia][ib]),       \* Value::compare
+         IF CmpM[ia][ib] = 2 THEN "type" ELSE IF CmpM[ia][ib] = 3 THEN "any" ELSE B2S(CmpM[ia][ib] <= 0),       \* a <= b
+         IF CmpM[ia][ib] = 2 THEN "type" ELSE IF CmpM[ia][ib] = 3 THEN "any" ELSE B2S(CmpM[ia][ib] = 1),        \* a > b
+         IF CmpM[ia][ib] = 2 THEN "type" ELSE IF CmpM[ia][ib] = 3 THEN "any" ELSE ToString(CmpM[ia][ib]),       \* Value::compare
          IF ~hh THEN "unhashable" ELSE IF eq THEN "dup" ELSE "2">>          \* {a: 1, b: 2}: equal keys in a display are an error
 
 (* stable insertion sort of positions 1..n of the index list `idx` by CmpM *)
